@@ -2,6 +2,7 @@ package main
 
 import (
 	"fmt"
+	"go/types"
 	"sort"
 
 	"golang.org/x/tools/go/ssa"
@@ -144,6 +145,51 @@ func ruleBuryWhenEmpty(c *Ctx) {
 	}
 	if len(sites) == 0 {
 		c.Undec(rule, "callers of buryStore", "found", "", "")
+	}
+	// the count that decides covers every role a peer can have: leaders, followers and learners
+	roles := map[*types.Var]string{}
+	for _, n := range []string{"leaders", "followers", "learners"} {
+		roles[P.Field("server/core", "RegionsInfo", n)] = n
+	}
+	seenFn := map[*ssa.Function]bool{}
+	got := map[string]bool{}
+	var collect func(v ssa.Value, depth int, seen map[ssa.Value]bool)
+	collect = func(v ssa.Value, depth int, seen map[ssa.Value]bool) {
+		if v == nil || seen[v] || depth < 0 {
+			return
+		}
+		seen[v] = true
+		if f := fieldOfAddr(v); f != nil && roles[f] != "" {
+			got[roles[f]] = true
+		}
+		if cl, ok := v.(*ssa.Call); ok {
+			if f := cl.Call.StaticCallee(); f != nil && len(f.Blocks) > 0 && fnPkgPath(f) == modPath+"/server/core" && !seenFn[f] {
+				seenFn[f] = true
+				for _, b := range f.Blocks {
+					if r, ok := b.Instrs[len(b.Instrs)-1].(*ssa.Return); ok {
+						for i := range r.Results {
+							collect(retVal(r, i), depth-1, map[ssa.Value]bool{})
+						}
+					}
+				}
+			}
+		}
+		if ins, ok := v.(ssa.Instruction); ok {
+			var ops []*ssa.Value
+			for _, op := range ins.Operands(ops) {
+				collect(*op, depth-1, seen)
+			}
+		}
+	}
+	cf := P.Method("server/core", "BasicCluster", "GetStoreRegionCount")
+	c.saw(fnName(cf))
+	for _, b := range cf.Blocks {
+		if r, ok := b.Instrs[len(b.Instrs)-1].(*ssa.Return); ok && len(r.Results) == 1 {
+			collect(retVal(r, 0), 12, map[ssa.Value]bool{})
+		}
+	}
+	for _, n := range []string{"leaders", "followers", "learners"} {
+		c.Check(got[n], rule, "GetStoreRegionCount counts the "+n+" index", "the count a store is buried on includes every role a peer can have (a store holding only learners is not empty)", P.pos(cf.Pos()), "the result does not depend on RegionsInfo."+n)
 	}
 	// RemoveTombStoneRecords deletes only tombstones
 	rm := P.Method("server/cluster", "RaftCluster", "RemoveTombStoneRecords")
